@@ -38,3 +38,55 @@ pub fn swarm_scenario(rng: &mut Rng) -> Value {
     let cfg = GenCfg::swarm(rng);
     scenario(rng, cfg)
 }
+
+/// A program made of standard-library procedures run on random operands (real-world code: long spans
+/// of u32 operations, many locals, deep stacks), executed honestly. Returns a scenario like `scenario`.
+pub fn stdlib_scenario(rng: &mut Rng) -> Value {
+    let u32v = |rng: &mut Rng| 1 + rng.below((1u64 << 32) - 1);
+    let mut inputs: Vec<u64> = vec![];
+    let mut src = String::new();
+    match rng.below(8) {
+        0 => {
+            let (m, f, n) = *rng.pick(&[("sha256", "hash_2to1", 16), ("sha256", "hash_1to1", 8), ("blake3", "hash_2to1", 16), ("blake3", "hash_1to1", 8), ("keccak256", "hash", 16)]);
+            inputs = (0..n).map(|_| u32v(rng)).collect();
+            src = format!("use.std::crypto::hashes::{m}\n\nbegin\n    exec.{m}::{f}\nend\n");
+        }
+        1 => {
+            let f = *rng.pick(&["add_unsafe", "sub_unsafe", "mul_unsafe", "and", "or", "xor"]);
+            inputs = (0..16).map(|_| u32v(rng)).collect();
+            src = format!("use.std::math::u256\n\nbegin\n    exec.u256::{f}\nend\n");
+        }
+        2 => {
+            let n = rng.range(1, 12);
+            src = "use.std::mem\n\nbegin\n".to_string();
+            for i in 0..n {
+                src.push_str(&format!("    push.{}.{}.{}.{} mem_storew.{} dropw\n", rng.felt(), rng.felt(), rng.felt(), rng.felt(), 100 + i));
+            }
+            src.push_str(&format!("    push.{}.100.{} exec.mem::memcopy\nend\n", 5000 + rng.below(100), n));
+        }
+        _ => {
+            // a sequence of u64 operations: (name, u32 operands incl. a shift amount marked by 's', results)
+            let ops: [(&str, &str, usize); 22] = [
+                ("wrapping_add", "uuuu", 2), ("overflowing_add", "uuuu", 3), ("wrapping_sub", "uuuu", 2), ("overflowing_sub", "uuuu", 3), ("wrapping_mul", "uuuu", 2), ("overflowing_mul", "uuuu", 4),
+                ("lt", "uuuu", 1), ("gte", "uuuu", 1), ("eq", "uuuu", 1), ("min", "uuuu", 2), ("max", "uuuu", 2), ("div", "uuuu", 2), ("mod", "uuuu", 2), ("divmod", "uuuu", 4),
+                ("and", "uuuu", 2), ("xor", "uuuu", 2), ("shl", "uus", 2), ("shr", "uus", 2), ("rotl", "uus", 2), ("rotr", "uus", 2), ("clz", "uu", 1), ("cto", "uu", 1),
+            ];
+            src = "use.std::math::u64\n\nbegin\n".to_string();
+            for _ in 0..rng.range(2, 10) {
+                let (name, args, nout) = *rng.pick(&ops);
+                src.push_str("   ");
+                for a in args.bytes() {
+                    let v = if a == b's' { rng.below(64) } else { u32v(rng) };
+                    src.push_str(&format!(" push.{}", v));
+                }
+                src.push_str(&format!(" exec.u64::{}", name));
+                for _ in 0..nout {
+                    src.push_str(" drop");
+                }
+                src.push('\n');
+            }
+            src.push_str("end\n");
+        }
+    }
+    json!({"prog": {"source": src, "stdlib": true, "stack_inputs": inputs.iter().map(|v| v.to_string()).collect::<Vec<_>>(), "advice_stack": []}, "knobs": knobs(rng), "challenges": challenges(rng)})
+}
